@@ -5,7 +5,10 @@
 // operand forms (variable, call result, array element, literal) plus the compound-assignment
 // form; every prefix operator x pool x forms; every boolean context x pool x forms. Each case
 // runs on the real lexer -> parser -> interpreter; results come back through a Go recorder with
-// their exact runtime type. Oracles (engine/exprsem/ref.go, written from the statement and
+// their exact runtime type. ext.go adds: two more complete tables over a numeric boundary grid and
+// a string grid, mixed operand-form pairs (var-lit ...), the boolean-valued operators in condition
+// position (incl. the re-test of a resumed generator loop), and every boolean context in six
+// evaluation scopes plus generator-suspended contexts. Oracles (engine/exprsem/ref.go, written from the statement and
 // docs/operators.md, never looking at origami's nodes):
 //
 //	value     exact value+type on the documented domain, the whole set of defensible answers
